@@ -35,6 +35,21 @@ func VH_C18_snake() {
 	vAssert("C18.snake.same_as_pinned_release", out == vhSnakePinned(s))
 }
 
+// VH_C18_snake_names: type names a Go program can really have, beyond the
+// symbolic ASCII ones: package-qualified names with runs of capitals and
+// digits, and identifiers with non-ASCII letters.  The directory name of a
+// collection must be the one the pinned release computes (byte for byte: a
+// "nicer" name would hide the existing directory).
+func VH_C18_snake_names() {
+	names := []string{
+		"sod.DBEntry", "sod.HTTPServer", "main.X509Cert", "pkg.T1", "a.B", "sod.testStruct", "sod.TestStruct",
+		"sod.My_Type", "sod.ABC", "x.aBC9dE",
+		"sod.RelevéCompte", "sod.ÉtatCivil", "sod.Straße", "main.日本Name", "sod.ΔDelta", "é",
+	}
+	n := names[vChoice("name", len(names))]
+	vAssert("C18.snake.names.same_as_pinned_release", camelToSnake(n) == vhSnakePinned(n))
+}
+
 // vhSnakePinned is the directory naming rule of the pinned release
 // (commit e481c06, utils.go camelToSnake), kept verbatim as the oracle.
 func vhSnakePinned(camel string) string {
